@@ -1,7 +1,10 @@
 package scen
 
 import (
+	"bytes"
+	"encoding/hex"
 	"fmt"
+	"strings"
 	"time"
 
 	sdk "github.com/cosmos/cosmos-sdk/types"
@@ -311,11 +314,108 @@ func (C01) Apply(env world.Env, mm mc.Model, ev string) mc.Step {
 	return st
 }
 
+// ---- leaf-name aliasing: a proof of chunk c' passed off as the proof of the challenged chunk c ----
+//
+// The chain names a leaf by the decimal chunk index immediately followed by the hex of the chunk's bytes. For a challenged
+// index c and another index c' whose decimal spelling is that of c followed by an even number of digits dd.., the payload
+// (ToProve = c, item = bytes(dd..) || chunk c', hash list of chunk c') spells the same leaf name as the honest proof of c'.
+// The item is not the content of chunk c, so by construction it is not a proof of the challenged chunk.
+
+var c01Big = mkFile(seqBytes(130, 5), 1) // 130 one-byte chunks: chunk 1 has the aliases 100..129
+
+// c01Aliases returns the indices c' < n whose decimal spelling is that of c plus an even, positive number of digits.
+func c01Aliases(c int64, n int64) []int64 {
+	var out []int64
+	cs := fmt.Sprint(c)
+	for x := int64(0); x < n; x++ {
+		xs := fmt.Sprint(x)
+		if len(xs) > len(cs) && (len(xs)-len(cs))%2 == 0 && strings.HasPrefix(xs, cs) {
+			out = append(out, x)
+		}
+	}
+	return out
+}
+
+func c01AliasEnum() mc.Enum {
+	cfg := C01{}.Config()
+	st := cfg.Storage
+	cfg.Storage = func(p *storagetypes.Params) {
+		st(p)
+		p.ChunkSize, p.ProofWindow, p.CheckWindow = 1, 100000, 100000
+	}
+	e := mc.Enum{Prop: "C01", Name: "C01/index-aliasing", Cfg: cfg, ConfirmB: true, ConfB: 2}
+	e.Setup = func(env world.Env) {
+		w := env.W()
+		mustOK(env.Deliver(storagetypes.NewMsgInitProvider(w.A("P1").Bech, "https://node.provider1.com", 1_000_000_000, "kb")), "InitProvider")
+		u := w.A("U").Bech
+		mustOK(env.Deliver(storagetypes.NewMsgBuyStorage(u, u, 30, 1000_000_000_000, "ujkl")), "BuyStorage")
+	}
+	for g0 := uint64(0); g0 < 8; g0++ {
+		g0 := g0
+		c := mc.Case{Desc: fmt.Sprintf("alias|gas0=%d", g0)}
+		c.Run = func(env world.Env) mc.CaseResult {
+			w := env.W()
+			f := c01Big
+			cr := mc.CaseResult{Class: "no-aliasable-challenge-within-the-horizon"}
+			u, p1 := w.A("U").Bech, w.A("P1").Bech
+			start := env.Ctx().BlockHeight()
+			mustOK(env.Deliver(storagetypes.NewMsgPostFile(u, f.merkle, int64(len(f.data)), 0, 0, 1, "{}")), "PostFile")
+			n := int64(len(f.chunks))
+			challenge := int64(0)
+			for round := 0; round < 3000; round++ {
+				if al := c01Aliases(challenge, n); round > 0 && len(al) > 0 {
+					cr.Class, cr.Nontrivial = "aliasable-challenge-reached", true
+					before := w.DumpStore(env.Ctx(), "storage")
+					for _, x := range al {
+						extra, err := hex.DecodeString(fmt.Sprint(x)[len(fmt.Sprint(challenge)):])
+						if err != nil {
+							panic(err)
+						}
+						chunk, hl := f.proofFor(int(x))
+						item := append(append([]byte{}, extra...), chunk...)
+						if bytes.Equal(item, f.chunks[challenge]) {
+							continue // would be the honest item
+						}
+						ok, _ := postProofOK(w, env.Deliver(storagetypes.NewMsgPostProof(p1, f.merkle, u, start, item, hl, challenge)))
+						after := w.DumpStore(env.Ctx(), "storage")
+						if ok || !storeEqual(before, after) {
+							cr.Viols = append(cr.Viols, viol("credit-only-by-valid-proof", "leaf-name-alias", "file of %d one-byte chunks, prover challenged with chunk %d: payload (ToProve=%d, item=%x = digits %q as bytes followed by the content of chunk %d, hash list of chunk %d) was accepted (success=%v, store changed=%v) although the item is not the content of chunk %d (%x)", n, challenge, challenge, item, fmt.Sprint(x)[len(fmt.Sprint(challenge)):], x, x, ok, !storeEqual(before, after), challenge, f.chunks[challenge]))
+							return cr
+						}
+					}
+					return cr
+				}
+				env.SetBlockGas(g0*4096 + uint64(round))
+				item, hl := f.proofFor(int(challenge))
+				if ok, emsg := postProofOK(w, env.Deliver(storagetypes.NewMsgPostProof(p1, f.merkle, u, start, item, hl, challenge))); !ok {
+					panic(fmt.Sprintf("harness: honest proof of chunk %d rejected in round %d: %s", challenge, round, emsg))
+				}
+				pr, found := w.App.StorageKeeper.GetProof(env.Ctx(), p1, f.merkle, u, start)
+				if !found {
+					panic("harness: no proof record after an accepted proof")
+				}
+				challenge = pr.ChunkToProve
+				if round%16 == 15 {
+					if bp := env.NextBlock(time.Second); bp != nil {
+						panic(bp.Value)
+					}
+				}
+			}
+			return cr
+		}
+		e.Cases = append(e.Cases, c)
+	}
+	return e
+}
+
 func init() {
+	CaseReplayers["C01/index-aliasing"] = func(r *mc.Run, c string) { r.ReplayCase(c01AliasEnum(), c) }
 	regScenario(C01{})
 	Props["C01"] = Prop{Level: "model_checking", Run: func(r *mc.Run, tier string) {
 		r.Rules = append(r.Rules, "BFS from a posted 3-chunk file (replication 3; a 4th account meets it when full) over PostProof by 3 accounts x payload {valid for the challenged chunk, another chunk's proof sent with the challenged index, with its own index, broken hash list; for one account also foreign-file proof, empty item, truncated hash list}, proof for an unknown file, attestation request/sign, block-gas choice (varies the next challenge), NextBlock (1 day; reward blocks every 2nd block); payload validity is known by construction and cross-checked with the Merkle library")
 		r.Assumptions = append(r.Assumptions, "ChunkSize 4, ProofWindow 3, CheckWindow 2, attestation form size 1/min 1", "SHA-256/SHA3 collision freedom")
 		r.AddExplore(C01{}, opts(tier, 7, 12, 60, 1200, 150, 2000))
+		r.Rules = append(r.Rules, "leaf-name aliasing: a 130-chunk file (chunk size 1); from 8 starting seeds the honest prover proves until the chain challenges a chunk whose index has an alias (index spelled with two more digits), then every alias payload is submitted for the challenged index and must be rejected without any change")
+		r.AddEnum(c01AliasEnum(), workers(), time.Now().Add(10*time.Minute))
 	}}
 }
